@@ -56,6 +56,13 @@ var c15Layouts = []c15Layout{
 	{"create-nel-emspace", func(u, p string) string { return "CREATE USER " + qid(u) + " WITH\u0085PASSWORD\u2003" + p }, ""},
 	{"set-exotic-blanks", func(u, p string) string { return "SET PASSWORD\u3000FOR\f" + qid(u) + "\u00a0=\v" + p }, ""},
 	{"set-ff-cr", func(u, p string) string { return "SET PASSWORD\rFOR\r\n" + qid(u) + " =\r" + p }, ""},
+	// an unbalanced quote earlier in the text, where it is not a quote: inside a regular expression, a comment, a
+	// finished string of the other kind
+	{"after-regex-apostrophe", func(u, p string) string { return "SELECT * FROM cpu WHERE host =~ /it's/; CREATE USER " + qid(u) + " WITH PASSWORD " + p }, ""},
+	{"after-comment-apostrophe", func(u, p string) string { return "/* bob's account */ CREATE USER " + qid(u) + " WITH PASSWORD " + p }, ""},
+	{"after-line-comment-quote", func(u, p string) string { return "-- it's \"new\n SET PASSWORD FOR " + qid(u) + " = " + p }, ""},
+	{"after-regex-dquote", func(u, p string) string { return "SELECT v FROM m WHERE h !~ /a\"b/ ; SET PASSWORD FOR " + qid(u) + " = " + p + "; SELECT 1 FROM \"m'\"" }, ""},
+	{"after-string-with-dquote", func(u, p string) string { return "SELECT v FROM m WHERE h = 'say \"' ; CREATE USER " + qid(u) + " WITH PASSWORD " + p }, ""},
 	{"create-comment", func(u, p string) string { return "CREATE USER " + qid(u) + " WITH /* c */ PASSWORD " + p }, "C15-comment-in-clause"},
 	{"create-line-comment", func(u, p string) string { return "CREATE USER " + qid(u) + " WITH -- c\n PASSWORD " + p }, "C15-comment-in-clause"},
 	{"set-comment", func(u, p string) string { return "SET PASSWORD /* c */ FOR " + qid(u) + " = " + p }, "C15-comment-in-clause"},
